@@ -7,6 +7,7 @@
 From AQ Require Import lib.Base model.Timers model.TimersSpec proofs.TimersP model.TimersFull model.TimersFullSpec proofs.TimersFullP.
 From AQ Require model.RecBase model.Recovery proofs.TimersFullLink model.AckQueue proofs.TimersFullAck.
 From AQ Require Import gen.C12Consts model.RangeSet.
+From AQ Require Import gen.C09Consts proofs.TimersCloseP.
 
 (* Until termination _close_at is set: get_timer() does not raise (the comparison with None is
    unreachable) and returns a finite time not later than _close_at, whatever the ack / loss /
@@ -107,6 +108,60 @@ Print Assumptions end_states_send_nothing.
 Theorem close_begins : forall k c, c_close_event c = None -> began (do_close k c).
 Proof. exact began_do_close. Qed.
 Print Assumptions close_begins.
+
+(* The close round.  `send_at uncond` is datagrams_to_send with the position of `self._close_pending = False;
+   self._close_begin(is_initiator=True, now=now)` as a parameter (true: last statements of the close branch, before
+   builder.flush(); false: in the post-flush `if datagrams:` block); gen/C09Consts.CLOSE_BEGIN_UNCONDITIONAL is the
+   position found in the tree under check (AST probe, fail closed).  In the tree's position EVERY close round -- a
+   pending close on a connection that has a network path and is not in END_STATES -- leaves the connection CLOSING with
+   _close_at = now + 3 PTO and _close_pending = False, for BOTH values of `produced` (a close round can write nothing:
+   every packet type with send keys is skipped when its header leaves no room, fix 26d6ec4); it returns closing
+   datagrams iff some were produced. *)
+Theorem close_round_always_begins : forall now pto3 produced nev c, close_round_ready c ->
+  exists c', send_at CLOSE_BEGIN_UNCONDITIONAL now pto3 produced nev c = Ok (if produced then SClose else SNone, c') /\
+    c_state c' = CLOSING /\ c_close_at c' = Some (now + pto3) /\ c_close_pending c' = false.
+Proof. exact close_round_always_begins_lemma. Qed.
+Print Assumptions close_round_always_begins.
+
+(* From close() to the termination event.  Any reachable live connection with a network path and no close event yet;
+   close(); any ops that are not datagrams_to_send (receive_datagram is ignored, get_timer / next_event / early timers
+   are harmless; the idle deadline may fire: then it is already TERMINATED); the first datagrams_to_send at `now` with
+   3 PTO = pto3, WHATEVER it produced; then any ops l1 whose handle_timer calls are all before now + pto3; then
+   handle_timer(v), v >= now + pto3.  The close round leaves CLOSING / now + pto3 / not pending; throughout l1 the state
+   stays CLOSING and get_timer() returns exactly now + pto3 (so a caller that honours get_timer fires at that time);
+   handle_timer(v) reports termination -- exactly one event, appended by this call -- and the connection stays
+   TERMINATED whatever follows (with terminated_once: exactly one ConnectionTerminated in the whole run). *)
+Theorem close_terminates_within : forall client o ops pre now pto3 produced nev l1 v,
+  first_op client o ->
+  let c0 := snd (run (conn_init client) (o :: ops)) in
+  is_end (c_state c0) = false -> c_has_path c0 = true -> c_close_event c0 = None ->
+  no_send pre -> timers_before (now + pto3) l1 -> v >= now + pto3 ->
+  let c1 := snd (run c0 (OClose :: pre)) in
+  let c2 := after_send_at CLOSE_BEGIN_UNCONDITIONAL now pto3 produced nev c1 in
+  let c3 := snd (run c2 l1) in
+  c_state c1 = TERMINATED \/
+  (c_state c2 = CLOSING /\ c_close_at c2 = Some (now + pto3) /\ c_close_pending c2 = false /\
+   c_state c3 = CLOSING /\
+   (forall acks loss pacing, fst (get_timer acks loss pacing c3) = Ok (Some (now + pto3))) /\
+   exists c4 k, timer v c3 = Ok c4 /\ c_state c4 = TERMINATED /\ c_close_at c4 = None /\ is_term_kind k /\
+                c_events c4 = c_events c3 ++ [k] /\
+                forall more, c_state (snd (run c4 more)) = TERMINATED).
+Proof. exact close_terminates_within_lemma. Qed.
+Print Assumptions close_terminates_within.
+
+(* Why the position matters: a reachable client (connect, Retry accepted, close()) for which a close round that writes
+   nothing is a NO-OP when the transition sits under `if datagrams:` (close still pending, state unchanged, _close_at
+   still the idle deadline 61010: a fixed point of datagrams_to_send), while in the tree's position it starts the
+   closing period. *)
+Theorem close_round_position_matters :
+  first_op true (OConnect 1000 60000) /\
+  let c := snd (run (conn_init true) stuck_ops) in
+  close_round_ready c /\ c_close_at c = Some 61010 /\
+  (forall now pto3 nev, send_at false now pto3 false nev c = Ok (SNone, c)) /\
+  (forall now pto3 nev, exists c', send_at true now pto3 false nev c = Ok (SNone, c') /\ c_state c' = CLOSING /\
+                                   c_close_at c' = Some (now + pto3)).
+Proof. exact close_round_position_matters_lemma. Qed.
+Print Assumptions close_round_position_matters.
 
 (* ---------------------------------------------------------------------------------------------------------------
    The composed model (model/TimersFull.v): the timer sources are STATE -- per-space ack_at / loss_time /
